@@ -56,7 +56,7 @@ class GenEngineBase:
     timeout_s = 300.0
     selftest_n = 48
     max_minimised = 2
-    min_cap = 40
+    min_cap = 60
     universe = None
 
     def preload_common(self):
@@ -80,7 +80,13 @@ class GenEngineBase:
             c["history"] = h
             return c
 
-        hist = dd.ddmin(case["history"], lambda h: fails(with_hist(h)), budget)
+        hist = case["history"]
+        # cheap big steps first: no heap/gc perturbation, then only the actions of the contexts that matter
+        for keep in (lambda a: a[0] not in ("gc", "junk"), lambda a: a[0] not in ("gc", "junk", "env")):
+            h2 = [a for a in hist if keep(a)]
+            if len(h2) < len(hist) and budget.take() and fails(with_hist(h2)):
+                hist = h2
+        hist = dd.ddmin(hist, lambda h: fails(with_hist(h)), budget)
         c = with_hist(hist)
 
         def simpler(c):
